@@ -8,6 +8,8 @@ Real code driven (in-process, real files under a scratch directory, file I/O wra
                                                            (conf/flowir_instance.yaml, conf/manifest.yaml)
   Experiment._store_extracted_input_ids / _store_additional_input_data / _store_extracted_measured_properties
                                           (output/input-ids.json, additional_input_data.json, properties.csv)
+  Experiment.experimentFromPackage / Experiment.experimentFromInstance -> Experiment.__init__   (harness/c14_create.py: the
+                                          CREATION path - the first write of flowir_instance.yaml, manifest.yaml, status.txt)
 For every update: the fault-free operation trace is compared with the model's protocol; then the
 update is re-run from the same state once per fault (process death / I/O error at operation k, after j
 characters of a write) and the trace shape + on-disk files are compared with the model, and the
@@ -38,6 +40,9 @@ ASSUMPTIONS = [
     'file may merge several write() calls into one system call, which only removes crash points',
     'json.dump / yaml_dump / ConfigurationFileToJson / repr+literal_eval of the stage list are oracles: their '
     'output text is an input of the model',
+    'creation stream: the shadow directory of a created instance (ExperimentShadowDirectory.temporaryShadow) is placed under '
+    'the scratch directory and the clock of experiment.model.data/storage is fixed, so that every faulted re-run starts from '
+    'the same pre-state and writes the same texts; the copy of the package into the instance directory is not a state file',
     'file-level codec model: characters are code points < 256 (larger ones in values other than error-description are '
     'checked on the real code only); the escaping of error-description is modelled and proved over all code points (Fs.Wide)',
 ]
@@ -1154,6 +1159,8 @@ def run(ctx):
                 'interface files}, update = '
                 'position 1..6 in a history with values from a set containing line breaks = \\ quotes # % blanks NUL '
                 'latin-1 and wider code points, fault = process death or I/O error at operation k after j characters; '
+                'plus creation cases (package, entry point in {experimentFromPackage, experimentFromInstance with a subset of '
+                'the state files removed}, fault) - the first write of the state files; '
                 'plus loader cases (printed, truncated, hand-made status files). non-trivial = a previous version of the '
                 'file exists and the fault is after the first operation; distinct by (updater, update, fault)')
     rng = ctx.rng
@@ -1168,8 +1175,15 @@ def run(ctx):
     run_instance(ctx, rng, terms)
     run_iface(ctx, rng, terms)
     t3 = time.time()
-    ctx.extra['drive_s'] = {'status': round(t1 - t0, 1), 'logs+details': round(t2 - t1, 1), 'instance': round(t3 - t2, 1)}
+    import c14_create
+    create_terms = []
+    c14_create.run_create(ctx, rng, create_terms)
+    t4 = time.time()
+    ctx.extra['drive_s'] = {'status': round(t1 - t0, 1), 'logs+details': round(t2 - t1, 1), 'instance': round(t3 - t2, 1),
+                            'creation': round(t4 - t3, 1)}
     _finish_terms(ctx, terms, 'check_update', 'C14 protocol: operation trace and files after every fault vs Fs.Model.exec/run', 12)
+    _finish_terms(ctx, create_terms, 'check_create',
+                  'C14 creation path: trace, removal of the instance and files after every fault vs Fs.Model.exec2', 3)
     _finish_terms(ctx, print_terms, 'check_print', 'C14 codec: Status.writeToStream vs Fs.Model.status_print', 60)
     _finish_terms(ctx, parse_terms, 'check_parse', 'C14 codec: Status.statusFromFile vs Fs.Model.status_parse', 60)
     esc_terms, unesc_terms = [], []
@@ -1179,6 +1193,7 @@ def run(ctx):
     _finish_terms(ctx, unesc_terms, 'check_wunescape',
                   "C14 codec, all code points: encode('utf-8').decode('unicode_escape') vs Fs.Wide.unescape_text", 400, HEADER_W)
     ctx.extra['updates_modelled'] = len(terms)
+    ctx.extra['creations_modelled'] = len(create_terms)
 
 
 def replay(ctx, path):
